@@ -225,7 +225,9 @@ def same_operand(body, a, b):
             return ("?", id(op))
         while not pl.get("p") and hops < 8:
             d = single_def(body, pl["l"])
-            if d and d[2] == "assign" and d[3]["rv"]["k"] == "use":
+            widening = d and d[2] == "assign" and d[3]["rv"]["k"] == "cast" and d[3]["rv"].get("ck") == "IntToInt" \
+                and INT_BITS.get(operand_ty(body, d[3]["rv"]["a"]) or "", 999) <= INT_BITS.get(body.ty(d[3]["rv"]["ty"]) or "", 0)
+            if d and d[2] == "assign" and (d[3]["rv"]["k"] == "use" or widening):
                 inner = d[3]["rv"]["a"]
                 kk = op_const(inner)
                 if kk is not None:
@@ -778,7 +780,47 @@ def discharge_const_divisor(site):
     return None
 
 
-DISCHARGERS.extend([discharge_is_some_guard, discharge_full_range, discharge_const_divisor])
+def discharge_guarded_increment(site):
+    """Overflow(Add, x, const 1) dominated by an edge that establishes x < y for some y of the
+    same type: then x + 1 <= y <= MAX"""
+    if site.kind != "assert:Overflow:Add":
+        return None
+    ops = site.term["ops"]
+    kb = op_const(ops[1]) if len(ops) == 2 else None
+    if kb is None or kb.get("v") != 1:
+        return None
+    body = site.body
+    dom = dominators(body)
+    if site.bb not in dom:
+        return None
+    for d in dom[site.bb]:
+        bt = body.blocks[d]["t"]
+        if bt["k"] != "switch":
+            continue
+        c = _cmp_defs(body, op_local(bt["on"])) if op_local(bt["on"]) is not None else None
+        if not c:
+            continue
+        op, x, y, _ = c
+        zero_t = [v for val, v in bt["targets"] if val == 0]
+        zero_t = zero_t[0] if zero_t else None
+        true_t = bt["otherwise"]
+        edge = None
+        if same_operand(body, x, ops[0]):
+            if op == "Lt":
+                edge = true_t
+            elif op == "Ge":
+                edge = zero_t
+        elif same_operand(body, y, ops[0]):
+            if op == "Gt":
+                edge = true_t
+            elif op == "Le":
+                edge = zero_t
+        if edge is not None and edge in dom[site.bb] and _edge_dominates(body, d, edge, site.bb):
+            return "guarded-increment: x < bound established at %s, so x + 1 cannot overflow" % body.loc(bt.get("sp"))
+    return None
+
+
+DISCHARGERS.extend([discharge_is_some_guard, discharge_full_range, discharge_const_divisor, discharge_guarded_increment])
 
 
 def panic_scope(ctx, rule, crate, entry_regexes, scope, desc, extra=()):
